@@ -248,3 +248,34 @@ package gossipval
 //@   ensures accept_aggregator_signature: res.Result == ACCEPT ==> sig_valid(signedAgg.Signature) && (exists st StateI, p CPubP :: pub_valid(p.Compressed) && bls_ok(p.Compressed, seq(signing_root(aggproof_root(gv_spec(aggVal), signedAgg.Message), state_domain(st, common.DOMAIN_AGGREGATE_AND_PROOF, signedAgg.Message.Aggregate.Data.Target.Epoch))), signedAgg.Signature))
 //@   ensures accept_aggregate_signature: res.Result == ACCEPT ==> (exists e EpcP, st StateI, ia IdxAttT :: idxatt_ok(gv_spec(aggVal), e, st, ia))
 //@   ensures marks: n_mark_agg == old(n_mark_agg) + ite(res.Result == ACCEPT, 1, 0) && n_mark_aggregator == old(n_mark_aggregator) + ite(res.Result == ACCEPT, 1, 0) && (res.Result != ACCEPT ==> gvver == old(gvver))
+
+// ---------------------------------------------------------------- sync_committee_{subnet} topic (C12)
+
+//@ ghost n_mark_syncmsg int
+//@ ufun gv_seen_syncmsg(int, VIdx, SlotT, int) bool
+
+//@ func (b SyncCommitteeSubnetValBackend) SeenSyncCommMsg(validator, slot, subnet) r
+//@   trusted
+//@   opt noalloc
+//@   ensures r == gv_seen_syncmsg(gvver, validator, slot, subnet)
+
+//@ func (b SyncCommitteeSubnetValBackend) MarkSyncCommMsg(validator, slot, subnet)
+//@   trusted
+//@   opt noalloc
+//@   assigns ghost(gvver), ghost(n_mark_syncmsg)
+//@   ensures n_mark_syncmsg == old(n_mark_syncmsg) + 1
+
+// I the message is for the current slot (clock disparity allowed on both sides);
+// R the subnet is one of the validator's; I first message for (validator, slot, subnet);
+// R signature valid; the block (root, slot) is known; marked iff ACCEPT.
+//@ func ValidateSyncCommitteeSubnet(ctx, subnet, syncCommMessage, scpVal) (comm, res)
+//@   property C12
+//@   requires syncCommMessage != nil && scpVal != nil && gv_spec(scpVal).SYNC_COMMITTEE_SIZE / common.SYNC_COMMITTEE_SUBNET_COUNT != 0
+//@   assigns ghost(gvver), ghost(n_mark_syncmsg), heap(CachedPubkey.decompressed)
+//@   ensures accept_timing: res.Result == ACCEPT ==> syncCommMessage.Slot >= gv_slot_after(old(gvver), -MAXIMUM_GOSSIP_CLOCK_DISPARITY) && syncCommMessage.Slot <= gv_slot_after(old(gvver), MAXIMUM_GOSSIP_CLOCK_DISPARITY)
+//@   ensures accept_known: res.Result == ACCEPT ==> ch_known_at(old(gvver), syncCommMessage.BeaconBlockRoot, syncCommMessage.Slot) && !ce_epc_err(ch_entry_at(old(gvver), syncCommMessage.BeaconBlockRoot, syncCommMessage.Slot))
+//@   ensures accept_first: res.Result == ACCEPT ==> !gv_seen_syncmsg(old(gvver), syncCommMessage.ValidatorIndex, syncCommMessage.Slot, subnet)
+//@   ensures accept_signature: res.Result == ACCEPT ==> sync_msg_sig_ok(old(gvver), gv_spec(scpVal), ce_epc(ch_entry_at(old(gvver), syncCommMessage.BeaconBlockRoot, syncCommMessage.Slot)), *syncCommMessage)
+//@   ensures accept_subnet: res.Result == ACCEPT ==> (let isc := ce_epc(ch_entry_at(old(gvver), syncCommMessage.BeaconBlockRoot, syncCommMessage.Slot)).CurrentSyncCommittee in exists i :: 0 <= i && i < len(isc.Indices) && isc.Indices[i] == syncCommMessage.ValidatorIndex && i / (gv_spec(scpVal).SYNC_COMMITTEE_SIZE / common.SYNC_COMMITTEE_SUBNET_COUNT) == subnet)
+//@   ensures reject_not_timing: res.Result == REJECT ==> syncCommMessage.Slot <= gv_slot_after(old(gvver), MAXIMUM_GOSSIP_CLOCK_DISPARITY) && ch_known_at(old(gvver), syncCommMessage.BeaconBlockRoot, syncCommMessage.Slot)
+//@   ensures marks: n_mark_syncmsg == old(n_mark_syncmsg) + ite(res.Result == ACCEPT, 1, 0) && (res.Result != ACCEPT ==> gvver == old(gvver))
